@@ -15,7 +15,8 @@ LEVEL = ("Static agreement of the five functions of every Storable impl, read of
          "overrides them, and the update-event marker is advanced after extract_stats in every expanded_draw (R7); flattened stat names of every "
          "preset are reported for duplicates (R8). Not decided: that a vector's runtime length equals the runtime size of its dimension."
          " Added: each store_* option of the statistics is fed by the settings switch of the same name in every preset (R9)."
-         " Added (round 4): no function that builds a statistics struct fabricates an empty / default numeric vector (R12).")
+         " Added (round 4): no function that builds a statistics struct fabricates an empty / default numeric vector (R12)."
+         " Added (round 5): StatsDims.n_dim is Math::dim() itself (R13).")
 EXPLANATION = ("SCHEMA reconstruction from HIR (literal arms, resolved delegation targets, resolved Value constructors / From impls); option-provenance "
                "abstract interpretation with exhaustive boolean comparison of presence formulas; field-writer inventory on MIR.")
 TRUSTED = ["rustc nightly HIR/MIR + macro expansion", "nutsfacts extractor", "rules/schema.py, rules/presence.py, rules/c16.py"]
